@@ -82,9 +82,31 @@ func groupOps(fn *ssa.Function) []gcOp {
 		}
 	}
 	var out []gcOp
+	type opSite struct {
+		call *ssa.Call // the Put/Delete
+		at   *ssa.Call // where it happens in fn: the call itself, or fn's call of the private helper that holds it
+	}
+	var sites []opSite
 	for _, s := range eng.Sites(fn) {
 		call, ok := s.Instr.(*ssa.Call)
-		if !ok || !call.Call.IsInvoke() || !strings.HasSuffix(eng.Desc(call.Call.Value), ".groups") {
+		if !ok {
+			continue
+		}
+		sites = append(sites, opSite{call, call})
+		// a private helper of the chain that only writes the store (no update of the in-memory count) is
+		// read as if its writes stood at the call
+		if h := s.Static(); h != nil && h != fn && h.Pkg == fn.Pkg && h.Blocks != nil && !token.IsExported(h.Name()) && strings.Contains(eng.FuncName(h), "groupChain).") &&
+			len(eng.FieldStores(h, "core.groupChain", "count")) == 0 {
+			for _, hs := range eng.Sites(h) {
+				if hc, isC := hs.Instr.(*ssa.Call); isC {
+					sites = append(sites, opSite{hc, call})
+				}
+			}
+		}
+	}
+	for _, os := range sites {
+		call, at := os.call, os.at
+		if !call.Call.IsInvoke() || !strings.HasSuffix(eng.Desc(call.Call.Value), ".groups") {
 			continue
 		}
 		m := call.Call.Method.Name()
@@ -92,7 +114,7 @@ func groupOps(fn *ssa.Function) []gcOp {
 			continue
 		}
 		kd := eng.Desc(call.Call.Args[0])
-		op := gcOp{method: m, call: call}
+		op := gcOp{method: m, call: at}
 		if len(call.Call.Args) > 1 {
 			op.val = eng.Desc(call.Call.Args[1])
 		}
@@ -107,7 +129,7 @@ func groupOps(fn *ssa.Function) []gcOp {
 			} else if !strings.Contains(kd, ".count)") {
 				op.key = "height-index(?)" + kd
 			}
-			if countStore != nil && eng.Reaches(countStore, call) {
+			if countStore != nil && eng.Reaches(countStore, at) {
 				off += delta
 			}
 			op.idx = off
@@ -116,7 +138,7 @@ func groupOps(fn *ssa.Function) []gcOp {
 		case c19CountKey != "" && strings.Contains(kd, c19CountKey):
 			op.key = "count"
 			// value written must be the count *after* the in-memory update
-			if countStore == nil || !eng.Reaches(countStore, call) {
+			if countStore == nil || !eng.Reaches(countStore, at) {
 				op.key = "count(stale)"
 			}
 		case strings.HasSuffix(kd, ".Id"):
@@ -400,7 +422,18 @@ func c19Writers(c *eng.Ctx, r *eng.Report) {
 		if n == 0 {
 			continue
 		}
-		r.Check(allowed[name], rule, "writer:"+name, c.Pos(fn.Pos()), "reviewed writer of the group store / count / last group", name+" writes the group store, the count or the last-group pointer outside save/remove/init: the list and its index can diverge")
+		okW := allowed[name]
+		if !okW && !token.IsExported(fn.Name()) {
+			// a private helper all of whose callers are reviewed writers is part of them (R19.1 reads its writes at the call)
+			callers := c.Callers(fn)
+			okW = len(callers) > 0
+			for _, cs := range callers {
+				if !allowed[eng.FuncName(cs.Fn)] {
+					okW = false
+				}
+			}
+		}
+		r.Check(okW, rule, "writer:"+name, c.Pos(fn.Pos()), "reviewed writer of the group store / count / last group", name+" writes the group store, the count or the last-group pointer outside save/remove/init: the list and its index can diverge")
 	}
 }
 
